@@ -10,6 +10,7 @@ import (
 	"io"
 	"runtime"
 	"strconv"
+	"strings"
 	"sync"
 	"time"
 
@@ -162,6 +163,9 @@ func (m *Manager) CreateTable(name string) (Table, error) {
 }
 
 func (m *Manager) createTable(name string) (Table, error) {
+	if err := validateTableName(name); err != nil {
+		return Table{}, err
+	}
 	storeName := storedTableName(name)
 	exists, err := m.store.Exists(storeName)
 	if err != nil {
@@ -189,6 +193,9 @@ func (m *Manager) createTable(name string) (Table, error) {
 }
 
 func (m *Manager) DeleteTable(name string) error {
+	if err := validateTableName(name); err != nil {
+		return err
+	}
 	m.mtx.Lock()
 	defer m.mtx.Unlock()
 	storeName := storedTableName(name)
@@ -201,6 +208,16 @@ func (m *Manager) DeleteTable(name string) error {
 	}
 
 	return m.store.Delete(storeName, tab.Ver)
+}
+
+// validateTableName rejects names containing the separator of the metadata key space: such a name
+// would map to a key of another record ("/tables/sys/idseq", "/tables/<name>/lease") and would not be
+// matched by the "/tables/*" listing pattern.
+func validateTableName(name string) error {
+	if strings.Contains(name, "/") {
+		return serrors.ErrInvalidTableName
+	}
+	return nil
 }
 
 func storedTableName(name string) string {
@@ -518,6 +535,9 @@ func (m *Manager) stopTable(clusterID uint64) error {
 }
 
 func (m *Manager) Restore(name string, reader io.Reader) error {
+	if err := validateTableName(name); err != nil {
+		return err
+	}
 	tbl, version, err := m.getTableVersion(name)
 	if err != nil && !errors.Is(err, serrors.ErrTableNotFound) {
 		return err
